@@ -230,7 +230,7 @@ func appendNote(notes []string, n string) []string {
 
 // breaks one reference inside a router of the generated flows (what flow validation must refuse at load: the engine
 // and its model rely on a router only ever naming exits of its own node); returns what was broken, "" if nothing could be
-func malformRouter(r *Rng, ga *genAssets) string {
+func malformRouter(r *Rng, ga *genAssets, prefer int) string {
 	type cand struct {
 		f *genFlow
 		n *genNode
@@ -246,7 +246,20 @@ func malformRouter(r *Rng, ga *genAssets) string {
 	if len(cands) == 0 {
 		return ""
 	}
+	// mostly in the flow the session starts in, and early in it, so that the broken node is reached
+	var near []cand
+	for _, cd := range cands {
+		if cd.f == ga.Flows[prefer] {
+			near = append(near, cd)
+		}
+	}
 	cd := cands[r.Intn(len(cands))]
+	if len(near) > 0 && r.Chance(80) {
+		cd = near[0]
+		if r.Chance(40) {
+			cd = near[r.Intn(len(near))]
+		}
+	}
 	cats, _ := cd.n.Router["categories"].([]map[string]any)
 	if len(cats) == 0 {
 		return ""
@@ -366,9 +379,12 @@ func runC01(c *Ctx) {
 	// then returns a session) or, if it runs, the invariant must hold all the same. No model here: it assumes validated flows.
 	for i := 0; i < c.N(400, 12000); i++ {
 		ec := genEngCase(r, false)
-		kind := malformRouter(r, ec.GA)
+		kind := malformRouter(r, ec.GA, ec.StartFlow)
 		if kind == "" {
 			continue
+		}
+		if strings.HasPrefix(kind, "timeout") {
+			ec.Resumes = append([]string{"timeout"}, ec.Resumes...)
 		}
 		ncall, ran := 0, false
 		runEngCase(c, ec, "C01", func(er *engRun, call *engCall) {
